@@ -452,6 +452,10 @@ def premature_scipy(case, mb, names, fixed, limited, tol):
         msg = str(getattr(res, "message", ""))
         if res is not None and limited and "REDUCTION OF F" in msg.upper() and np.any(np.abs(np.asarray(res.jac, dtype=float)) > 1e-3):
             return "C06/scipy-backend-accepts-unconverged-result"
+        # signature 4: scipy itself flags the result as failed (e.g. "Desired error not necessarily achieved due to precision loss") and
+        # the adapter hands it out as the fit result (the caller has established that a lower admissible point exists)
+        if res is not None and not bool(getattr(res, "success", True)):
+            return "C06/scipy-backend-accepts-unconverged-result"
         # signature 1: calling do_fit() again (nothing else changed) continues to a lower cost
         mb.fit.do_fit()
         c1 = cost(np.array(mb.fit.parameter_values, dtype=float))
